@@ -99,6 +99,15 @@ def step (st : St) (toks : List String) : St × String :=
       ({ st with specs := (id, r.spec) :: st.specs },
         (if r.ok then "ok " else "err ") ++ specStr r.spec)
     | none => (st, "bad-op")
+  -- the specification taken from the environment: `env` = "~" (unset) or the hex of RUST_LOG
+  | ["ENVPARSE", id, mode, env, given, rxE, rxG] =>
+    let envv : Option (Option (List Char)) := if env = "~" then some none else (hexToText env).map some
+    match envv, hexToText given with
+    | some e, some g =>
+      let r := if mode = "env" then envParse e (rxE = "1") else envOrParse e g (rxE = "1") (rxG = "1")
+      ({ st with specs := (id, r.spec) :: st.specs },
+        (if r.ok then "ok " else "err ") ++ specStr r.spec)
+    | _, _ => (st, "bad-op")
   | ["DISPLAY", id] =>
     match getSpec st id with
     | some s => (st, textToHex (display s.filters))
